@@ -162,8 +162,14 @@ def _sanitiser(ctx) -> None:
                 details.append("a reserved name is not suffixed with '_'")
         else:
             c, v5, pol = r
-            if not (pol and c == ("cmp", "In", v5, ("call", ("name", "_get_reserved_names"), (), ()))):
+            res_t = ("cmp", "In", v5, ("call", ("name", "_get_reserved_names"), (), ()))
+            kw_t = ("call", ("attr", ("name", "keyword"), "iskeyword"), (v5,), ())
+            parts = set(c[2]) if (c[0] == "bool" and c[1] == "or") else {c}
+            if not pol or res_t not in parts or parts - {res_t, kw_t}:
                 details.append(f"reserved test is `{sh(c)}`")
+            elif kw_t not in parts:
+                details.append("a Python keyword (class, for, lambda, ...) is not suffixed with '_': `t.class` does not parse, the "
+                               "advertised accessor would be unusable")
             stages.append("reserved")
         # look-alike
         v4 = None
@@ -758,6 +764,9 @@ MUTANTS = [
                 (_N, "	# Starts with digit → prefix c\n	if sanitized[0].isdigit():\n		sanitized = \"c\" + sanitized\n",
                  "	# Starts with digit → prefix c\n	if sanitized[:1].isdigit():\n		sanitized = \"c\" + sanitized\n	sanitized = sanitized.strip('_')\n", 1)],
          rules=["a.sanitiser"]),
+    dict(id="keywords-not-suffixed", module=_N, old="	if sanitized in _get_reserved_names() or keyword.iskeyword(sanitized):",
+         new="	if sanitized in _get_reserved_names():", rules=["a.sanitiser"],
+         desc="the defect repaired by fix d929723: a column named 'class' is advertised as .class"),
     dict(id="reserved-properties-forgotten", module=_N, old="				if callable(attr) or isinstance(attr, property):", new="				if callable(attr):",
          rules=["a.sanitiser"], desc="a column named like a property (shape, name, T) would shadow it"),
     dict(id="reserved-only-vector", module=_N, old="		for cls in (Vector, Table):", new="		for cls in (Vector,):", rules=["a.sanitiser"]),
